@@ -362,6 +362,25 @@ func (c *connectionRequest) checkServer(server RegisteredServer) (s ConnectionSt
 	p := c.player
 	p.mu.RLock()
 	defer p.mu.RUnlock()
+	return p.checkServer0(server)
+}
+
+// checkServerAndSetInFlight runs the same check as checkServer and, if the request may
+// proceed, publishes conn as the connection in flight within the same critical section,
+// so that two concurrent requests can not both pass the check.
+func (c *connectionRequest) checkServerAndSetInFlight(server RegisteredServer, conn *serverConnection) (s ConnectionStatus, ok bool) {
+	p := c.player
+	p.mu.Lock()
+	defer p.mu.Unlock()
+	s, ok = p.checkServer0(server)
+	if ok {
+		p.connInFlight = conn
+	}
+	return s, ok
+}
+
+// without locking
+func (p *connectedPlayer) checkServer0(server RegisteredServer) (s ConnectionStatus, ok bool) {
 	if p.connInFlight != nil || (p.connectedServer_ != nil &&
 		!p.connectedServer_.completedJoin.Load()) {
 		return InProgressConnectionStatus, false
@@ -403,7 +422,12 @@ func (c *connectionRequest) internalConnect(ctx context.Context) (result *connec
 	}
 
 	conn := newServerConnection(server, c.previousServer, c.player)
-	c.player.setInFlightConnection(conn)
+	// Check once more and take the in-flight slot atomically: another request
+	// may have passed its own check since ours.
+	status, ok = c.checkServerAndSetInFlight(newDest, conn)
+	if !ok {
+		return plainConnectionResult(status, newDest), nil
+	}
 	defer c.resetIfInFlightIs(conn)
 	return conn.connect(ctx)
 }
